@@ -338,19 +338,19 @@ def hist_variants(body, sub_opts=()):
     return {"direct": body, "extend": mk(False), "new": mk(True)}
 
 
-def run_history(tmp, tag, spec, hist):
+def run_history(tmp, tag, spec, hist, states=None):
     with Probe() as P:
-        return _run_history(tmp, tag, spec, hist, P)
+        return _run_history(tmp, tag, spec, hist, P, states)
 
 
-def _run_history(tmp, tag, spec, hist, P):
+def _run_history(tmp, tag, spec, hist, P, states=None):
     """hist: list of True / False (scheduler-level cache flag) / "dry" (cache on, dry run).  Returns per execution
     dict(out, execs: real probe executions, new_execs: executions recorded, probe_rows_ok, detail)."""
     from harness.progs import vm_c38
     db = tmp / f"{tag}.db"
     steps = []
     for k, h in enumerate(hist):
-        (tmp / "state").write_text(f"s{k}")
+        (tmp / "state").write_text(states[k] if states else f"s{k}")     # "fail..." makes the probe task raise
         (tmp / "log").write_text("")
         before_rows, before_execs = db_rows(str(db)) if db.exists() else ({}, {})
         out, _ = run_expr(db, lambda: vm_c38.call38(spec), cache=(h is not False), dryrun=(h == "dry"))
@@ -627,7 +627,7 @@ class Check(PropertyCheck):
     id = "C38"
     module = "Props.C38"
     theorems = ["C38_subrun_no_single_reduction", "C38_no_single_when_excluded", "C38_ultimate_only_when_shallow_backend",
-                "C38_cache_false_is_cse_only", "C38_direct_cache_false_is_cse_only", "C38_guarded_downgrade_refuted", "C38_check_cache_closed_form", "C38_get_cache_total", "C38_subrun_eq_direct", "C38_replayed_dict_eq_direct",
+                "C38_cache_false_is_cse_only", "C38_direct_cache_false_is_cse_only", "C38_guarded_downgrade_refuted", "C38_check_cache_closed_form", "C38_get_cache_total", "C38_subrun_eq_direct", "C38_second_execution_eq_direct", "C38_value_shape_replays_failure_refuted", "C38_replayed_dict_eq_direct",
                 "C38_then_never_silent", "C38_forwarded_context_is_callers", "C38_root_key_separates_modes", "C38_unwrapped_root_is_single_job", "C38_extend_jobs_same_execution", "C38_extend_jobs_under_caller",
                 "C38_extend_root_is_child_of_caller", "C38_new_execution_jobs_detached", "C38_nonvacuous"]
     allowed_axioms = []
@@ -987,24 +987,31 @@ class Check(PropertyCheck):
 
     def history_plan(self):
         T, F, D = True, False, "dry"
+        FAIL = ["fail0", "fail1", "ok2"]        # the probe fails twice, then its cause is repaired
         if self.tier == "quick":
-            return [("flat", [T, F], ()), ("flat", [T, F, T], ()), ("flat", [T, D], ()), ("nested", [T, T, F], ())]
+            return [("flat", [T, F], ()), ("flat", [T, F, T], ()), ("flat", [T, D], ()), ("nested", [T, T, F], ()),
+                    ("flat", [T, T, T], (), FAIL)]
         plan = []
         hists = [list(h) for n in (2, 3) for h in itertools.product([T, F], repeat=n)] + [[T, D], [F, D, T], [T, F, D]]
         for b in HIST_BODIES:
             for h in hists:
                 plan.append((b, h, ()))
+        for b in HIST_BODIES:
+            for h in ([T, T, T], [T, F, T], [F, T, T], [T, T, F]):
+                plan.append((b, h, (), FAIL))
+        plan.append(("flat", [T, T, T], (("check_valid", "full"),), FAIL))
+        plan.append(("flat", [T, T, T], (("cache_scope", "CSE"),), FAIL))
         for so in ((("check_valid", "shallow"),), (("cache_scope", "BACKEND"),), (("check_valid", "full"),), (("cache_scope", "CSE"),),
                    (("cache_scope", "NONE"),)):
             for h in ([T, F], [T, T, F], [F, T]):
                 plan.append(("flat", h, so))
         return plan
 
-    def one_history(self, tmp, tag, bname, hist, sub_opts, only=None):
+    def one_history(self, tmp, tag, bname, hist, sub_opts, only=None, states=None):
         """runs the three variants of one history; returns [(variant, problem)] (problem None = agrees)"""
         v = hist_variants(HIST_BODIES[bname], sub_opts)
         for attempt in range(3):
-            res = {n: run_history(tmp, f"h{tag}_{attempt}_{n}", sp, hist) for n, sp in v.items() if only in (None, n) or n == "direct"}
+            res = {n: run_history(tmp, f"h{tag}_{attempt}_{n}", sp, hist, states) for n, sp in v.items() if only in (None, n) or n == "direct"}
             infra = [st["out"] for r in res.values() for st in r if is_infra(st["out"])]
             for p in tmp.glob("h*.db"):
                 p.unlink()
@@ -1018,16 +1025,19 @@ class Check(PropertyCheck):
         os.environ["RV_C38_PROBE_DIR"] = str(tmp)
         self.hist_problems = []
         self.hist_n = 0
-        for i, (bname, hist, sub_opts) in enumerate(self.history_plan()):
-            results, res = self.one_history(tmp, i, bname, hist, sub_opts)
+        for i, item in enumerate(self.history_plan()):
+            bname, hist, sub_opts = item[:3]
+            states = item[3] if len(item) > 3 else None
+            results, res = self.one_history(tmp, i, bname, hist, sub_opts, states=states)
             for variant, problem in results:
                 self.hist_n += 1
                 self.evaluations += len(hist)
                 self.count(("history", bname, repr(hist), repr(sub_opts), variant))
-                self.stat("histories", f"{variant}: " + " ".join("dry" if h == "dry" else ("cache" if h else "no-cache") for h in hist))
+                self.stat("histories", f"{variant}: " + " ".join("dry" if h == "dry" else ("cache" if h else "no-cache") for h in hist)
+                          + (" [probe: " + " ".join(states) + "]" if states else ""))
                 if problem:
                     self.hist_problems.append({"body": bname, "history": hist, "subrun_options": list(sub_opts), "variant": variant,
-                                               "problem": problem})
+                                               "states": states, "problem": problem})
             if i == 0:
                 self.sample({"history": hist, "sub-workflow": repr(HIST_BODIES[bname]),
                              "per execution (direct)": [(st["out"], st["execs"]) for st in res["direct"]],
@@ -1275,11 +1285,13 @@ class Check(PropertyCheck):
         for hp in getattr(self, "hist_problems", []):
             nb += 1
             hs = " ".join("dry" if h == "dry" else ("cache" if h else "no-cache") for h in hp["history"])
+            hs += (" [probe " + " ".join(hp["states"]) + "]") if hp.get("states") else ""
             self.findings.append(Finding(f"history:{hp['variant']}:{hp['body']}:{hs}:{hp['subrun_options']}"[:200],
                                          f"the same sub-workflow run {len(hp['history'])} times on one backend ({hs}), external state changed "
                                          f"before each run: {hp['problem']}",
                                          {"kind": "history", "body": hp["body"], "sub_workflow": repr(HIST_BODIES[hp["body"]]),
-                                          "history": hp["history"], "subrun_options": hp["subrun_options"], "variant": hp["variant"]}))
+                                          "history": hp["history"], "subrun_options": hp["subrun_options"], "variant": hp["variant"],
+                                          "states": hp.get("states")}))
         self.stat("oracle", "histories compared (variant x history)", getattr(self, "hist_n", 0))
         # a time-dependent insert race between the schedulers sharing the backend (seen, then passed on a re-run)
         races = [x for x in getattr(self, "infra", []) if x["error"][0] == "IntegrityError"]
@@ -1376,7 +1388,7 @@ class Check(PropertyCheck):
                 os.chdir(tmp)
                 os.environ["RV_C38_PROBE_DIR"] = str(tmp)
                 so = tuple(tuple(x) for x in r.get("subrun_options") or ())
-                results, res = self.one_history(tmp, 0, r["body"], r["history"], so, only=r["variant"])
+                results, res = self.one_history(tmp, 0, r["body"], r["history"], so, only=r["variant"], states=r.get("states"))
                 for st_d, st_o in zip(res["direct"], res.get(r["variant"], [])):
                     print("replay:   directly", st_d["out"], f"(inner task ran {st_d['execs']}x)  |  subrun {r['variant']}:", st_o["out"],
                           f"(ran {st_o['execs']}x, {st_o['new_execs']} execution(s) recorded)")
